@@ -89,6 +89,10 @@ CycPages == { <<Call("A", <<>>)>>, <<Call("A", <<Pos(<<Txt(<<"a">>)>>)>>)>>,
               <<If(<<Txt(<<"1">>)>>, <<Call("A", <<>>)>>, <<>>)>>,
               <<Txt(<<"p">>), Call("A", <<>>), Call("T1", <<Pos(<<Call("A", <<Pos(<<Txt(<<"a">>)>>)>>)>>)>>), Txt(<<"q">>)>> }
 
+\* templates whose includable part is empty (documentation-only pages), used flat, twice, and as an argument
+EmptyPages == { <<Call("E", <<>>)>>, <<Call("E", <<>>), Txt(<<"SP">>), Call("E", <<Pos(<<Txt(<<"a">>)>>)>>)>>,
+                <<Call("T1", <<Pos(<<Call("E", <<>>)>>)>>), Call("E", <<>>)>> }
+
 LoopPages == { <<Inv("loop", <<>>), Inv("echo", <<Pos(<<Txt(<<"k">>)>>)>>)>>, <<Call("T1", <<Pos(<<Inv("loop", <<>>)>>)>>)>> }
 
 RECURSIVE Nest(_)
@@ -117,11 +121,11 @@ Needs == { {}, {"T1"}, {"T2"}, {"Sp", "T1"} }
 Cases ==
   CASE Universe = "C16" ->
          { [lib |-> l, need |-> {"T2", "A"}, page |-> p, o |-> o, enw |-> TRUE] :
-             l \in AcyclicLibs \cup CyclicLibs \cup {LInvPre}, p \in CallPages \cup PfnPages \cup InvPages \cup CycPages \cup SiblingPages \cup DeepPagesQ, o \in Opts16 }
+             l \in AcyclicLibs \cup CyclicLibs \cup {LInvPre}, p \in CallPages \cup PfnPages \cup InvPages \cup CycPages \cup SiblingPages \cup DeepPagesQ \cup EmptyPages, o \in Opts16 }
          \cup { [lib |-> LibBase, need |-> {"T2"}, page |-> p, o |-> o, enw |-> TRUE] : p \in LoopPages, o \in Opts16 }
     [] Universe = "C16Q" ->
          { [lib |-> l, need |-> {"T2", "A"}, page |-> p, o |-> o, enw |-> TRUE] :
-             l \in {LibBase, LArg, LSelf, LInvPre}, p \in PfnPages \cup InvPages \cup CycPages, o \in Opts16 }
+             l \in {LibBase, LArg, LSelf, LInvPre}, p \in PfnPages \cup InvPages \cup CycPages \cup EmptyPages, o \in Opts16 }
          \cup { [lib |-> LibBase, need |-> {"T2"}, page |-> p, o |-> o, enw |-> TRUE] : p \in LoopPages, o \in Opts16 }
     [] Universe = "C05" ->
          { [lib |-> l, need |-> {}, page |-> p, o |-> OptAll, enw |-> TRUE] : l \in CyclicLibs \cup AcyclicLibs, p \in CycPages \cup DeepPages }
